@@ -180,6 +180,18 @@ def run(ctx):
             env['LBZIP2_VERIF_IN_GRANUL'] = str(rnd.choice([1024, 4096, 16384]))
         cs.append(dict(kind='decompress', name='follower-big' if big else 'follower', stdin=data, w=w, env=env,
                        argv=(lambda lb, w=w: [lb, '-d', '-n', str(w)]), expect_rc=0, expect_out=plain))
+    # finding F4: a mis-recognised candidate queued in front of the awaited block while later speculative blocks hold all but the
+    # reserved output slots (tiny granules scale the slot arithmetic down to a 1.9 KB input)
+    with open(os.path.join(core.ROOT, 'witness', 'f4_shadowed_emit.bz2'), 'rb') as f:
+        f4 = f.read()
+    f4out = ora.refbz(f4)[2]
+    for i in range(60 if q else 600):
+        w = rnd.choice([16, 16, 8, 12])
+        env = {'LBZIP2_VERIF_IN_GRANUL': '100', 'LBZIP2_VERIF_OUT_GRANUL': rnd.choice(['1', '1', '2'])}
+        if i % 2:
+            env['LBZIP2_VERIF_SCHED'] = '%d:slowthread' % rnd.randrange(1, 1 << 30)
+        cs.append(dict(kind='decompress', name='shadowed-emit-f4', stdin=f4, w=w, env=env,
+                       argv=(lambda lb, w=w: [lb, '-d', '-n', str(w)]), expect_rc=0, expect_out=f4out))
     with open(os.path.join(core.ROOT, 'witness', 'f3_flood_251_candidates.bz2'), 'rb') as f:
         f3 = f.read()
     f3out = ora.refbz(f3)[2]
